@@ -137,6 +137,29 @@ func (fr *frame) get(key ssa.Value) value {
 		}
 		cell := zero(mustDeref(key.Type()))
 		fr.i.globals[key] = &cell
+		// Package initialisers of dependencies are not run (bare inits); the few initialised package variables the code
+		// under test relies on are set here: time.UTC = &utcLoc{name "UTC"}, time.Local = a zone-less location named
+		// "Local" (behaves as UTC; native replays run with TZ=UTC).
+		if key.Pkg != nil && key.Pkg.Pkg.Path() == "time" {
+			switch key.Name() {
+			case "utcLoc":
+				if st, ok := cell.(structure); ok && len(st) > 0 {
+					st[0] = "UTC"
+				}
+			case "UTC":
+				if g, ok := key.Pkg.Members["utcLoc"].(*ssa.Global); ok {
+					cell = fr.get(g)
+				}
+			case "Local":
+				if g, ok := key.Pkg.Members["utcLoc"].(*ssa.Global); ok {
+					loc := zero(mustDeref(g.Type()))
+					if st, ok := loc.(structure); ok && len(st) > 0 {
+						st[0] = "Local"
+					}
+					cell = &loc
+				}
+			}
+		}
 		return &cell
 	}
 	if r, ok := fr.env[key]; ok {
